@@ -171,7 +171,7 @@ fn main() {
     std::panic::set_hook(Box::new(|_| {}));
 
     // G1: two threads, one evaluator each (identical / other flop), every call boundary a scheduling point
-    for gname in ["identical", "other-flop-same-ranges", "overlapping-scopes", "near-flops"] {
+    for gname in ["identical", "other-flop-same-ranges", "overlapping-scopes", "near-flops", "three-players"] {
         let specs = find(gname);
         // shorter programs in quick: the DFS scheduler has no partial-order reduction
         let specs: Vec<Spec> = specs.into_iter().map(|s| match s { Spec::Eval { cfg, scope, .. } => Spec::Eval { cfg, scope: (scope.0, scope.1, scope.2, if thorough { scope.3 } else { scope.3.min(scope.1 + 3) }), extra: 1 }, o => o }).collect();
